@@ -15,7 +15,8 @@ COSTS12 = COSTS8 + [(2, 3, 7, 1), (5, 2, 3, 3), (1, 4, 10, 10), (4, 1, 1, 9)]
 
 # fractional cost vectors, written as integers over a common scale: (uf, ub, wd, rd, scale)
 FRAC = [(10, 10, 1, 1, 10), (5, 2, 1, 1, 10), (10, 10, 5, 25, 10), (30, 10, 1, 1, 10), (10, 10, 25, 0, 10),
-        (1, 4, 1, 1, 4), (4, 10, 0, 15, 10)]     # uf = 0.25 and uf = 0.4
+        (1, 4, 1, 1, 4), (4, 10, 0, 15, 10),     # uf = 0.25 and uf = 0.4
+        (10, 10, 1, 2, 10), (10, 20, 3, 7, 10)]  # decimals that are not exact in binary (0.1 + 0.2, 0.3 + 0.7)
 
 
 def cv(c):
